@@ -186,7 +186,7 @@ def enc_val(v, cx: Ctx):
         return ("VNode", ("TDictInc", class_code(v.typ), flags), kids)
     if t is V.TypedDictValue:
         keys = list(v.items)
-        if keys != sorted(keys) or any(len(k) != 1 for k in keys) or v.literal_only:
+        if any(len(k) != 1 for k in keys) or v.literal_only:  # keys in declaration (insertion) order
             raise OutOfFragment("typeddict keys")
         if v.args[0] != V.TypedValue(str) or len(v.args) != 2:
             raise OutOfFragment("typeddict args")
@@ -220,13 +220,19 @@ def enc_val(v, cx: Ctx):
             raise OutOfFragment("callable")
         if sig.is_asynq or not sig.has_return_annotation or sig.allow_call or sig.evaluator is not None or sig.deprecated is not None:
             raise OutOfFragment("callable flags")
-        kids = []
+        kids, kw, npos = [], [], 0
         for i, (name, p) in enumerate(sig.parameters.items()):
-            if p.kind is not ParameterKind.POSITIONAL_ONLY or p.default is not None or name != f"@{i}":
+            if p.default is not None:
+                raise OutOfFragment("callable parameter default")
+            if p.kind is ParameterKind.POSITIONAL_ONLY and name == f"@{i}" and not kw:
+                npos += 1
+            elif p.kind is ParameterKind.KEYWORD_ONLY and len(name) == 1:
+                kw.append(ord(name))  # keyword-only names in declaration order
+            else:
                 raise OutOfFragment("callable parameter")
             kids.append(enc_val(p.annotation, cx))
         kids.append(enc_val(sig.return_value, cx))
-        return ("VNode", ("TCallable", len(sig.parameters)), kids)
+        return ("VNode", ("TCallable", Nat(npos), kw), kids)
     raise OutOfFragment(f"value class {t.__name__}")
 
 
